@@ -66,7 +66,18 @@ pub enum STamper {
 pub enum Case {
     Value { secret: Vec<u8>, key: String, version: u64, value: Vec<u8>, tamper: VTamper, crypt: bool },
     Shared { secret: [u8; 32], recs: Vec<Rec>, tamper: STamper, lss_impl: bool, server_tag: bool },
-    Nonce { secret: [u8; 32], recs: Vec<Rec>, n1: [u8; 32], n2: [u8; 32], tamper: STamper, which: u8 },
+    Nonce {
+        secret: [u8; 32],
+        recs: Vec<Rec>,
+        n1: [u8; 32],
+        n2: [u8; 32],
+        tamper: STamper,
+        which: u8,
+        /// 0 = none; otherwise the genuine tag is damaged (truncated to 0/1/16/31 bytes, extended,
+        /// one bit flipped, computed under another secret) and must be refused
+        #[serde(default)]
+        tag_mut: u8,
+    },
 }
 
 fn key_strat() -> impl Strategy<Value = String> {
@@ -502,7 +513,8 @@ impl C17 {
         Ok(())
     }
 
-    fn run_nonce(&self, secret: &[u8; 32], recs: &[Rec], n1: &[u8; 32], n2: &[u8; 32], tamper: &STamper, which: u8, st: &mut CaseStats, ctx: &Ctx) -> Result<(), Violation> {
+    #[allow(clippy::too_many_arguments)]
+    fn run_nonce(&self, secret: &[u8; 32], recs: &[Rec], n1: &[u8; 32], n2: &[u8; 32], tamper: &STamper, which: u8, tag_mut: u8, st: &mut CaseStats, ctx: &Ctx) -> Result<(), Violation> {
         let recs: Vec<Rec> = recs.iter().map(|(k, v, val)| (k.clone(), *v & (u64::MAX >> 1), val.clone())).collect();
         let mut helper = ExternalPersistHelper::new(*secret);
         let ent = FixedEntropy(std::cell::Cell::new(*n1));
@@ -516,6 +528,31 @@ impl C17 {
             return ctx.report(st, Violation::new("C17:nonce:roundtrip-refused", format!("fresh response refused for {:?}", recs)));
         }
         st.class("nonce:roundtrip-accepted");
+        if tag_mut != 0 {
+            // a damaged tag over the genuine data, under the genuine nonce
+            let mut bad = resp.clone();
+            let name = match tag_mut % 8 {
+                1 => { bad.truncate(0); "empty" }
+                2 => { bad.truncate(1); "one-byte" }
+                3 => { bad.truncate(16); "half" }
+                4 => { bad.truncate(31); "one-byte-short" }
+                5 => { bad.push(0); "one-byte-long" }
+                6 => { let l = bad.len(); bad[l - 1] ^= 1; "last-bit" }
+                7 => { bad[0] ^= 0x80; "first-bit" }
+                _ => {
+                    let mut other = *secret;
+                    other[0] ^= 1;
+                    bad = self.tag(&other, n1, &recs, which % 2 == 0);
+                    "other-secret"
+                }
+            };
+            let ok = helper.check_hmac(&muts(&recs), bad);
+            st.class(format!("nonce:damaged-tag:{}:{}", name, if ok { "accepted" } else { "refused" }));
+            if ok {
+                return ctx.report(st, Violation::new(format!("C17:nonce:damaged-tag-accepted:{}", name), format!("a tag damaged by [{}] was accepted for {:?}", name, recs)));
+            }
+            st.nontrivial_shape(("nonce-damaged-tag", name, recs.len()));
+        }
         match which % 4 {
             0 | 1 => {
                 // replay of the old response against a later request
@@ -597,8 +634,8 @@ impl Prop for C17 {
                 .prop_map(|(secret, key, version, value, tamper, crypt)| Case::Value { secret, key, version, value, tamper, crypt }),
             3 => (secret32.clone(), proptest::collection::vec(rec_strat(), 0..6), stamper_strat(), any::<bool>(), any::<bool>())
                 .prop_map(|(secret, recs, tamper, lss_impl, server_tag)| Case::Shared { secret, recs, tamper, lss_impl, server_tag }),
-            1 => (secret32, proptest::collection::vec(rec_strat(), 0..4), any::<[u8; 32]>(), any::<[u8; 32]>(), stamper_strat(), any::<u8>())
-                .prop_map(|(secret, recs, n1, n2, tamper, which)| Case::Nonce { secret, recs, n1, n2, tamper, which }),
+            2 => (secret32, proptest::collection::vec(rec_strat(), 0..4), any::<[u8; 32]>(), any::<[u8; 32]>(), stamper_strat(), any::<u8>(), prop_oneof![1 => Just(0u8), 1 => 1u8..9])
+                .prop_map(|(secret, recs, n1, n2, tamper, which, tag_mut)| Case::Nonce { secret, recs, n1, n2, tamper, which, tag_mut }),
         ]
         .boxed()
     }
@@ -607,7 +644,7 @@ impl Prop for C17 {
         match case {
             Case::Value { secret, key, version, value, tamper, crypt } => self.run_value(secret, key, *version, value, tamper, *crypt, st, ctx),
             Case::Shared { secret, recs, tamper, lss_impl, server_tag } => self.run_shared(secret, recs, tamper, *lss_impl, *server_tag, st, ctx),
-            Case::Nonce { secret, recs, n1, n2, tamper, which } => self.run_nonce(secret, recs, n1, n2, tamper, *which, st, ctx),
+            Case::Nonce { secret, recs, n1, n2, tamper, which, tag_mut } => self.run_nonce(secret, recs, n1, n2, tamper, *which, *tag_mut, st, ctx),
         }
     }
     fn min_nontrivial(&self, tier: Tier) -> usize {
